@@ -136,6 +136,8 @@ func (c *matcherCompiler) compile(v reflect.Value) Matcher {
 		})
 	case goast.ForStmtPtrType:
 		return c.compileForStmt(v)
+	case caseClausePtrType:
+		return c.compileCaseClause(v)
 
 		// TODO: Dedupe
 	case goast.CommentGroupPtrType:
@@ -151,6 +153,36 @@ func (c *matcherCompiler) compile(v reflect.Value) Matcher {
 	}
 
 	return c.compileGeneric(v)
+}
+
+var caseClausePtrType = reflect.TypeOf((*ast.CaseClause)(nil))
+
+// caseClauseMatcher matches a clause of a switch statement. go/ast tells
+// "default:" from "case x, y:" by its list of expressions being nil, and "..."
+// matches a list without elements: "case ...:" is still no "default:".
+type caseClauseMatcher struct {
+	Default bool
+	Clause  Matcher
+}
+
+func (c *matcherCompiler) compileCaseClause(v reflect.Value) Matcher {
+	clause, _ := v.Interface().(*ast.CaseClause)
+	if clause == nil {
+		return c.compileGeneric(v)
+	}
+	return caseClauseMatcher{
+		Default: clause.List == nil,
+		Clause:  c.compileGeneric(v),
+	}
+}
+
+func (m caseClauseMatcher) Match(got reflect.Value, d data.Data, r Region) (data.Data, bool) {
+	if clause, ok := got.Interface().(*ast.CaseClause); ok && clause != nil {
+		if (clause.List == nil) != m.Default {
+			return d, false
+		}
+	}
+	return m.Clause.Match(got, d, r)
 }
 
 type matcherFunc func(reflect.Value) bool
